@@ -84,7 +84,7 @@ def check_auto(ctx):
     flag_read = 'getattr(%s, %s, True)' % (inst, FLAG)
     flag_read2 = 'getattr(%s, %s)' % (inst, FLAG)          # inside try / except AttributeError: enabled
     seen = set()
-    for p in w.paths(fi.node, cls=au):
+    for p in repo.walker(inline_depth=1, split_ifexp=True).paths(fi.node, cls=au):
         gt = gtexts(p)
         r = p.ret()
         # "a flag that was never written counts as enabled" spelled with an exception handler
